@@ -52,6 +52,9 @@ def emit_function(cname, spec, af=False, extra_opts=None):
     em = X.Emitter(u, spec=spec, opts=opts)
     txt, sig = em.function(fs[0], cname, cls_ti=r.get('self'), is_ctor=r.get('ctor', False))
     txt = X.postprocess(txt)
+    if r.get('allow_unsigned_wrap'):
+        # unsigned wrap-around is defined behaviour in C++; for this function it is intended/harmless (documented in the recipe)
+        txt = '#pragma CPROVER check push\n#pragma CPROVER check disable "unsigned-overflow"\n' + txt + '#pragma CPROVER check pop\n'
     for oid, mn in r.get('must_fire', {}).items():
         if em.fired.get(oid, 0) < mn:
             raise X.ExtractError('%s: override %s fired %d < %d times' % (cname, oid, em.fired.get(oid, 0), mn))
@@ -107,6 +110,14 @@ class FragmentEmitter(X.Emitter):
         self.free.append((ti['ctype'], name, self.raw(n)))
         return name
 
+    def o_MemberExpr(self, n):
+        ks = X.kids(n)
+        if ks and X.strip_all(ks[0])['kind'] == 'CXXThisExpr':
+            if n['name'] in self.params:
+                return n['name']
+            return self.free_symbol(n)
+        return X.Emitter.o_MemberExpr(self, n)
+
     def o_CXXMemberCallExpr(self, n):
         try:
             ti = self.tm.info(X.qtype(n))
@@ -124,8 +135,9 @@ class FragmentEmitter(X.Emitter):
         return X.Emitter.o_CXXOperatorCallExpr(self, n)
 
 
-def emit_fragment(fname):
+def emit_fragment(fname, spec=None):
     r = FRAGMENTS[fname]
+    spec = spec or {}
     u = unit(r['unit'])
     fs = u.find_functions(r['fn'], r.get('cls'))
     if not fs:
@@ -146,9 +158,18 @@ def emit_fragment(fname):
         node = cs[ordinal]
     em = FragmentEmitter(u, fn, r['params'])
     em.cur_fn = fname
+    em.ret_ti = em.tm.info('void')
+    if r.get('af'):
+        em.af = True
     body = em.emit(expr)
+    if r.get('returned_by'):
+        # the enclosing function must return exactly this variable (and have no other return statement)
+        rets = _find_nodes(fn, lambda n: n['kind'] == 'ReturnStmt', [])
+        ok = len(rets) == 1 and X.kids(rets[0]) and X.strip_all(X.kids(rets[0])[0]).get('referencedDecl', {}).get('id') == node['id']
+        if not ok:
+            raise X.ExtractError('fragment %s: %s is expected to return exactly the variable %s' % (fname, r['fn'], r['var']))
     ps = list(r['params']) + [(t, nme) for (t, nme, _) in em.free]
-    txt = '%s %s(%s)\n{\n    return %s;\n}\n' % (r['ret'], fname, ', '.join('%s %s' % p for p in ps), body)
+    txt = '%s %s(%s)\n%s\n{\n    return %s;\n}\n' % (r['ret'], fname, ', '.join('%s %s' % p for p in ps), spec.get(('contract', fname), ''), body)
     # native form: free symbols are globals that the replay harness sets by name
     ntxt = ''.join('%s %s;\n' % (t, nme) for (t, nme, _) in em.free) + \
         '%s %s(%s)\n{\n    return %s;\n}\n' % (r['ret'], fname, ', '.join('%s %s' % p for p in r['params']), body)
@@ -264,6 +285,14 @@ def build_tu(job):
         meta['loops'] += e['loops']
         for k, v in e['fired'].items():
             meta['fired'][k] = meta['fired'].get(k, 0) + v
+    for fname in job.get('fragments', []):
+        e = emit_fragment(fname, spec)
+        if e['free']:
+            raise X.ExtractError('fragment %s depends on values other than its parameters: %s' % (fname, [f[2] for f in e['free']]))
+        e = dict(e)
+        e['sig'] = e['text'].split('\n')[0]
+        emitted.append((fname, e))
+        meta['functions'] += e['audit']
     # prototypes first (functions may call each other in any order)
     for cname, e in emitted:
         parts.append(e['sig'] + ';')
@@ -436,7 +465,7 @@ def run_job_uncached(job, tier='quick', log=print):
         res['notes'].append((r['out'] + r['err'])[-3000:])
         return res
     tu_text = open(cfile).read()
-    replace = [g for g in job.get('replace', []) if re.search(r'\b%s\s*\(' % re.escape(g), tu_text)]   # only callees that are called
+    replace = [g for g in list(job.get('replace', [])) + [x for x in ('vp_pow', 'vp_log', 'vp_sqrt') if x not in job.get('replace', [])] if re.search(r'\b%s\s*\(' % re.escape(g), tu_text)]   # only callees that are called
     igb, r = B1.instrument(gb, entry, job.get('enforce'), replace, loop_contracts=job.get('loop_contracts', True))
     res['cmds'].append(r['cmd'])
     if r['rc'] != 0:
